@@ -44,13 +44,16 @@ def namespace():
     for k in ("Sequence", "Iterable", "Mapping", "Collection", "MutableSequence", "MutableMapping"):
         ns[k] = getattr(collections.abc, k)
     ns["AbstractSet"] = collections.abc.Set
-    for k in ("A", "B", "C", "E", "IE", "NT", "TD1", "TD2", "TD3", "TD4", "Falsy", "ISub", "FSub", "CSub", "FE", "SSub", "BSub", "TSub", "LSub", "DSub", "SE"):
+    for k in U.TYPEDDICTS:
+        ns[k] = getattr(U, k)
+    for k in ("A", "B", "C", "E", "IE", "NT", "Falsy", "ISub", "FSub", "CSub", "FE", "SSub", "BSub", "TSub", "LSub", "DSub", "SE"):
         ns[k] = getattr(U, k)
     return ns
 
 
 BASES = ["int", "bool", "float", "complex", "str", "bytes", "object", "A", "B", "C", "E", "IE", "list", "tuple", "dict",
-         "set", "frozenset", "type", "None", "NT", "TD1", "TD2", "TD3", "TD4", "ISub", "FSub", "FE", "SSub", "TSub", "LSub", "DSub"]
+         "set", "frozenset", "type", "None", "NT", "TD1", "TD2", "TD3", "TD4", "TDBase", "TDChild", "TDGrand", "TDOptBase", "TDReqChild",
+         "TDQ", "TDF", "TDFopt", "TDClosed", "TDExtra", "TDExtraChild", "TDChild", "TDReqChild", "ISub", "FSub", "FE", "SSub", "TSub", "LSub", "DSub"]
 LITS = ["1", "0", "True", "False", "'a'", "''", "b'a'", "None", "-1", "E.a", "IE.x", "2"]
 CLASSES_FOR_TYPE = ["int", "float", "bool", "str", "A", "B", "C", "object", "complex", "tuple", "list", "dict", "bytes"]
 
@@ -155,13 +158,24 @@ def py_member(o, T):
     if _is_typeddict(T):
         if not isinstance(o, dict) or not all(isinstance(k, str) for k in o):
             return False
-        hints = typing.get_type_hints(T)
+        import typing_extensions
+
+        hints = typing_extensions.get_type_hints(T)
         for k, ht in hints.items():
             if k in o:
                 if not py_member(o[k], ht):
                     return False
-            elif k in T.__required_keys__:
+            elif k in T.__required_keys__:  # PEP 589 / 655: per-key requiredness, inherited keys included
                 return False
+        extra = getattr(T, "__extra_items__", None)
+        has_extra_type = extra is not None and extra is not getattr(typing_extensions, "NoExtraItems", None)
+        for k, v in o.items():
+            if k not in hints:
+                if has_extra_type:
+                    if not py_member(v, extra):
+                        return False
+                elif getattr(T, "__closed__", None):
+                    return False
         return True
     if origin is type:
         (x,) = args
@@ -208,7 +222,9 @@ def gen_obj_for(rng, T, depth=2):
     if _is_typeddict(T):
         # values are derived from the entry types (members and near misses); every entry may also hold
         # None or another falsy value, be absent, and the dict may have an extra (possibly non-str) key
-        hints = typing.get_type_hints(T)
+        import typing_extensions
+
+        hints = typing_extensions.get_type_hints(T)
         kvs = []
         for key, ht in hints.items():
             r = rng.random()
@@ -221,8 +237,8 @@ def gen_obj_for(rng, T, depth=2):
             else:
                 v = G.gen_obj(rng, 1)
             kvs.append([["str", key], v])
-        if rng.random() < 0.2:
-            kvs.append([rng.choice([["str", "z"], ["int", 5]]), rng.choice([["int", 0], ["none"]])])
+        if rng.random() < 0.3:
+            kvs.append([rng.choice([["str", "z"], ["str", "z"], ["int", 5]]), rng.choice([["int", 0], ["none"], ["str", "x"]])])
         rng.shuffle(kvs)
         return ["dict", rng.randrange(4), kvs]
     if origin is type:
@@ -359,7 +375,8 @@ def run_programs(progs):
     import io
 
     lines = ["from typing import *", "from collections.abc import Sequence, Iterable, Mapping, Collection, MutableSequence, MutableMapping",
-             "from collections.abc import Set as AbstractSet", "from universe import A, B, C, E, IE, NT, TD1, TD2, TD3, TD4, Falsy, ISub, FSub, CSub, FE, SSub, BSub, TSub, LSub, DSub, SE", ""]
+             "from collections.abc import Set as AbstractSet", "from universe import TDBase, TDChild, TDGrand, TDOptBase, TDReqChild, TDQ, TDF, TDFopt, TDClosed, TDExtra, TDExtraChild",
+             "from universe import A, B, C, E, IE, NT, TD1, TD2, TD3, TD4, Falsy, ISub, FSub, CSub, FE, SSub, BSub, TSub, LSub, DSub, SE", ""]
     where = {}
     for i, (t, src) in enumerate(progs):
         lines.append(f"def f{i}():")
